@@ -1673,14 +1673,23 @@ func (fr *frame) atCall(callee *ssa.Function, ins ssa.Instruction) {
 		if cl.Name != callee.Name() && cl.Name != callee.String() {
 			continue
 		}
-		fr.ghostAssign(cl.Tag, cl.Expr)
+		env := fr.baseEnv()
+		if ci, ok := ins.(ssa.CallInstruction); ok {
+			for i, a := range ci.Common().Args {
+				if _, dup := env.vars[fmt.Sprintf("arg%d", i)]; !dup {
+					env.vars[fmt.Sprintf("arg%d", i)] = fr.argVal(fr.val(a))
+				}
+			}
+		}
+		fr.ghostAssignEnv(env, cl.Tag, cl.Expr)
 	}
 }
 
 // ghostAssign: G := e, under the current path condition
-func (fr *frame) ghostAssign(name string, e *SExpr) {
+func (fr *frame) ghostAssign(name string, e *SExpr) { fr.ghostAssignEnv(fr.baseEnv(), name, e) }
+
+func (fr *frame) ghostAssignEnv(env *SpecEnv, name string, e *SExpr) {
 	vc := fr.vc
-	env := fr.baseEnv()
 	cur := env.eval(&SExpr{Op: "ident", Name: name, Src: name}, nil)
 	nv := env.eval(e, nil)
 	comp := "G:" + name
